@@ -23,7 +23,9 @@ LEVEL_TEXT = ("Every execution is the real BilinearForm._assemble with real thre
               "decides who runs at every yield point. Kernel granularity (yield before each integrand call): ALL "
               "interleavings for every (Nu, Nv) in {1,2,3}^2 and every thread count 1..Nu*Nv+2 whose interleaving count is "
               "below the cap, deviation-bounded otherwise; line granularity (yield at every source line of "
-              "_threaded_kernel/_kernel): all schedules with <= 1 (quick) / 2 (thorough) preemptions. Oracle per "
+              "_threaded_kernel/_kernel): all schedules with <= 1 (quick) / 2 (thorough) preemptions; 'kernel+main': the starting thread is a "
+              "scheduled entity too - at every Thread.start() an already started worker may run first (<= 2 / 3 preemptions of "
+              "the starting thread). Oracle per "
               "execution: bitwise equality with nthreads=0, each (i,j) computed exactly once by one worker, no worker "
               "exception, operand digests unchanged; replay determinism asserted.")
 LEVEL_NOTE = ("Scheduling points are integrand entries and Python source lines; preemption inside a single bytecode-level "
@@ -38,9 +40,9 @@ ASSUMPTIONS = [
     "NumPy array operations are atomic with respect to the scheduler",
 ]
 BOUNDS = {
-    'quick': {'full_interleavings_cap': 5100, 'deviation_bound_above_cap': 2, 'line_preemption_bound': 1,
+    'quick': {'full_interleavings_cap': 5100, 'deviation_bound_above_cap': 2, 'line_preemption_bound': 1, 'main_preemption_bound': 2,
               'line_configs': 'Nu,Nv in {(2,2),(2,3),(3,2)} x threads {2,3}'},
-    'thorough': {'full_interleavings_cap': 40000, 'deviation_bound_above_cap': 3, 'line_preemption_bound': 2,
+    'thorough': {'full_interleavings_cap': 40000, 'deviation_bound_above_cap': 3, 'line_preemption_bound': 2, 'main_preemption_bound': 3,
                  'line_configs': 'Nu,Nv in {(2,2),(2,3),(3,2),(3,3)} x threads {2,3,4}'},
 }
 ITEM_TIMEOUT = {'quick': 900, 'thorough': 7200}
@@ -62,6 +64,10 @@ def items(tier, seed):
     for nu, nv in lc:
         for k in ks:
             its.append((nu, nv, k, 'line'))
+    # the starting thread is scheduled too: at every Thread.start() an already started worker may run first
+    for nu, nv in ([(2, 2), (2, 3)] if tier == 'quick' else [(2, 2), (2, 3), (3, 2), (3, 3)]):
+        for k in (2, 3, 4):
+            its.append((nu, nv, k, 'kernel+main'))
     # one triangle configuration with many pairs (P1 x P2: 18 pairs)
     its.append(('tri', 3, 6, 2, 'kernel'))
     its.append(('tri', 3, 6, 5, 'kernel'))
@@ -72,7 +78,7 @@ def cost(item):
     if item[0] == 'tri':
         return 50
     nu, nv, k, mode = item
-    return (nu * nv) ** 2 * (10 if mode == 'line' else 1)
+    return (nu * nv) ** 2 * (10 if mode == 'line' else 3 if mode == 'kernel+main' else 1)
 
 
 def n_interleavings(counts):
@@ -137,7 +143,7 @@ class Harness:
         i = self.vid.get(id(v), -1)
         tid = -1 if th is None else th.tid
         self.log.append((tid, j, i))
-        if th is not None and self.mode == 'kernel':
+        if th is not None and self.mode in ('kernel', 'kernel+main'):
             if getattr(th, 'kcalls', 0) > 0:
                 s.maybe_yield()
             th.kcalls = getattr(th, 'kcalls', 0) + 1
@@ -153,7 +159,7 @@ class Harness:
 
     def run(self, prefix):
         from skfem import BilinearForm
-        s = S.Sched(prefix, trace_codes=self.codes if self.mode == 'line' else ())
+        s = S.Sched(prefix, trace_codes=self.codes if self.mode == 'line' else (), schedule_main=self.mode == 'kernel+main')
         self.sched = s
         self.log = []
         orig = self.bf.Thread
@@ -221,6 +227,9 @@ def work(item, tier, seed):
             out.count('configs_deviation_bounded')
             out.cap(f"{label}: {total} interleavings exceed the cap {bd['full_interleavings_cap']}; explored all "
                     f"schedules with <= {db} non-default choices")
+    elif mode == 'kernel+main':
+        pb, db = bd['main_preemption_bound'], None
+        total = None
     else:
         pb, db = bd['line_preemption_bound'], None
         total = None
